@@ -145,7 +145,7 @@ func runFakeChild(spec ChildSpec) {
 				if kind == "request" && act.Kind != "silent" {
 					if fr := RenderAnswer(act, method, m.ID, m.Params); fr != "" {
 						if act.Kind == "raw" {
-							write(fr)
+							write(renderRaw(act.Raw, method, m.ID, m.Params))
 						} else {
 							write(fr + "\n")
 						}
